@@ -210,6 +210,7 @@ func runCheck(o checkOpts) int {
 		fails = append(fails, failure{o: ob, reason: e})
 	}
 
+	retried := 0
 	tmp, _ := os.MkdirTemp("", "zvc-"+prop+"-")
 	if !o.keep {
 		defer os.RemoveAll(tmp)
@@ -232,7 +233,20 @@ func runCheck(o checkOpts) int {
 		}
 		toRun = append(toRun, ob)
 	}
-	dischargeAll(toRun, tmp, budget, all, 16)
+	dischargeAll(toRun, tmp, budget, all, 12)
+	// retry ladder: an obligation that timed out while 12 solver races shared the
+	// machine is retried with few competitors and three times the budget, so that
+	// load on the host cannot turn a discharged obligation into an alarm
+	var again []*Obligation
+	for _, ob := range toRun {
+		if !ob.Canary && ob.Backend == "" && (ob.Status == "timeout" || ob.Status == "unknown") {
+			again = append(again, ob)
+		}
+	}
+	if len(again) > 0 && len(again) <= 40 {
+		dischargeAll(again, tmp, budget*3, true, 3)
+		retried = len(again)
+	}
 
 	if o.verbose {
 		for _, vc := range vcs {
@@ -252,6 +266,7 @@ func runCheck(o checkOpts) int {
 	solverTime := 0.0
 	var kfLines []string
 	var extraObls []*Obligation
+	_ = retried
 	var unclaimedSeen []string
 	newUnclaimed := map[string]string{}
 	for _, ob := range obls {
@@ -470,7 +485,7 @@ func runCheck(o checkOpts) int {
 			"functions_under_contract": fnames,
 			"trusted_contracts_not_verified": trusted,
 			"obligations_by_kind": byKind, "discharged_by_backend": byBackend,
-			"solver_time_s": round3(solverTime), "vacuity_canaries_checked": nCanary, "vacuity_canaries_inconclusive": nCanaryInconclusive,
+			"solver_time_s": round3(solverTime), "obligations_retried_after_timeout": retried, "vacuity_canaries_checked": nCanary, "vacuity_canaries_inconclusive": nCanaryInconclusive,
 			"abstracted_calls_havoc_everything": abstracted,
 			"assumed_dependency_calls": externals,
 			"callee_contracts_used": called,
